@@ -40,16 +40,31 @@ impl DynSet {
     }
 }
 
-/// A real `Keyboard` over the concrete scancode set selected at run time.
+/// A user-supplied scancode set: forwards to the real decoder and records every byte it
+/// is handed (C18: "only accepted bytes reach the scancode decoder, bytes go straight to it").
+pub struct SpySet {
+    pub inner: DynSet,
+    pub seen: Rc<RefCell<Vec<u8>>>,
+}
+impl ScancodeSet for SpySet {
+    fn advance_state(&mut self, code: u8) -> Result<Option<KeyEvent>, Error> {
+        self.seen.borrow_mut().push(code);
+        self.inner.advance_state(code)
+    }
+}
+
+/// A real `Keyboard` over the concrete scancode set selected at run time (or over the spy).
 pub enum KbAny {
     K1(Keyboard<DynLayout, ScancodeSet1>),
     K2(Keyboard<DynLayout, ScancodeSet2>),
+    K3(Keyboard<DynLayout, SpySet>),
 }
 macro_rules! kb_fwd {
     ($self:ident, $k:ident => $e:expr) => {
         match $self {
             KbAny::K1($k) => $e,
             KbAny::K2($k) => $e,
+            KbAny::K3($k) => $e,
         }
     };
 }
@@ -60,6 +75,9 @@ impl KbAny {
         } else {
             KbAny::K2(Keyboard::new(ScancodeSet2::new(), layout, h))
         }
+    }
+    pub fn with_spy(set: u8, layout: DynLayout, h: HandleControl, seen: Rc<RefCell<Vec<u8>>>) -> KbAny {
+        KbAny::K3(Keyboard::new(SpySet { inner: DynSet::new(set), seen }, layout, h))
     }
     pub fn add_bit(&mut self, bit: bool) -> Result<Option<KeyEvent>, Error> {
         kb_fwd!(self, k => k.add_bit(bit))
@@ -129,6 +147,10 @@ pub struct Asked {
     pub mods: Modifiers,
     pub map: bool,
     pub token: u32,
+    /// what the recorder answered: mostly a private-use code point unique in the run, but
+    /// also - as any user layout may - an arbitrary raw key (lock keys included) or a plain
+    /// ASCII letter/digit
+    pub answer: DecodedKey,
 }
 
 #[derive(Default)]
@@ -190,9 +212,15 @@ impl KeyboardLayout for DynLayout {
                 let mut l = log.borrow_mut();
                 // unique token per consultation, in the private-use area
                 let token = 0xF0000 + (l.counter % 0xFFFD);
+                let answer = match l.counter % 7 {
+                    5 => DecodedKey::RawKey(crate::keys::ALL_KEYS[(l.counter as usize / 7 * 5 + 3) % crate::keys::NKEYS]),
+                    6 => DecodedKey::Unicode(b"abcxyzABCXYZ0189 mM"[(l.counter as usize / 7) % 19] as char),
+                    _ => DecodedKey::Unicode(char::from_u32(token).unwrap_or('\u{F0000}')),
+                };
                 l.counter += 1;
-                l.asked.push(Asked { recorder: *id, key: keycode, mods: modifiers.clone(), map: handle_ctrl == HandleControl::MapLettersToUnicode, token });
-                DecodedKey::Unicode(char::from_u32(token).unwrap_or('\u{F0000}'))
+                let ans = answer;
+                l.asked.push(Asked { recorder: *id, key: keycode, mods: modifiers.clone(), map: handle_ctrl == HandleControl::MapLettersToUnicode, token, answer: ans });
+                ans
             }
         }
     }
